@@ -61,7 +61,7 @@ META.update({
                      "loader on the documented faults. 17 kinds of single well-formedness fault are injected into generated well-formed models at random sites; the real loader + "
                      "code generator must raise, and its accept/reject class must equal the model's.",
                 note=TB + "Kahn.staticOrder_correct / staticOrder_complete: the sorter model returns an order exactly for acyclic dependency graphs (a cycle is the only reason for its error). "
-                          "Missing/orphan derivatives and undefined symbols are rejected by the model's loader by construction (and compared with the implementation on every fault); LoaderWF.coreLoad_wf / loadStringP_wf: every model the loader model accepts is ModelWF; SeqCheckComplete.seqCheck_iff: the duplicate test accepts exactly the texts in which any two atoms of one name are the same definition (both directions, no mention of order)."),
+                          "Missing/orphan derivatives and undefined symbols are rejected by the model's loader by construction (and compared with the implementation on every fault); LoaderWF.coreLoad_wf / loadStringP_wf: every model the loader model accepts is ModelWF; SeqCheckComplete.seqCheck_iff: the duplicate test accepts exactly the texts in which any two atoms of one name are the same definition (both directions, no mention of order); LoaderExt.coreLoad_ext / coreLoad_repeat: the loader is a function of the set of atoms, repeating a definition changes neither verdict nor model."),
     "C09": dict(technique="Lean 4 proof (invariance under the iteration order of every dependency set; history invariant) + subprocess differential runs",
                 text="Theorems sort_iter_invariant, layout_iter_invariant, gen{Rhs,Monitor,Euler,GRL,Hybrid}_iter_invariant: for traversal orders that are permutations of the same "
                      "dependency sets the sorted order, the layout and every generated program are equal; pin deps_sorted (extracted from sort_assignments); history_invariant for "
@@ -94,7 +94,8 @@ META.update({
                 note=TB + "XLA compilation is assumption A2."),
     "C11": dict(technique="Lean 4 proof (writer alphabet inside the grammar, extracted tables) + differential save/load round trips",
                 text="Partial. Theorems writer_relations_in_grammar / writer_connectives_in_grammar and pins relop_table, writer_overrides: every name the writer can emit is accepted by the "
-                     "grammar the Lean parser implements. The print/parse round-trip theorem is not proved; instead every saved file is re-read by the real loader and by the Lean parser, "
+                     "grammar the Lean parser implements. ParseRender.parse_render / text_denotes: every source expression is what the parser reads from its minimal-parenthesis rendering (token level); "
+                     "LoaderExt.coreLoad_idem: loading the distinct atoms of a loaded model is accepted and gives the same model (the abstract core of save + load). The real writer and lexer are not modelled: every saved file is re-read by the real loader and by the Lean parser, "
                      "and atoms, units, descriptions, defaults, component membership and the values of rhs / monitors / schemes are compared (against the reference meaning too).",
                 note=TB + "Myokit/CellML-imported models are covered by the C15 check."),
     "C13": dict(technique="Lean 4 proof (missing variables exact, gluing of solutions, missing_values soundness) + differential three-module run",
